@@ -179,4 +179,38 @@ theorem c02_column_statistics_are_source_statistics :
         neededBytes (listMax col)) :=
   ⟨gen_valueCounter, gen_propertySize⟩
 
+/-- **The writer model's column finalisation is the source's, kind by kind**: feeding a column to the
+    translated `Property::process` (schema/property.rs — the per-entry statistics dispatcher) and then the
+    translated `Property::finalize` gives, for unsigned, signed (values within `i64`), content-address and
+    array columns (inline prefix below 256 bytes, not the indirect-array case of an indexed store), exactly
+    the layout property `finalizeProp` of the writer model computes: same width, same default, same
+    length-field size, same key size.  `process` never panics on a value of the column's own kind (it
+    returns `some`).  Both bodies and the enums `Property` / `Value` are translated on every run. -/
+theorem c02_column_finalisation_is_source_finalisation (stores : List VStore) (name : Bytes) (col : List Val) :
+    (∀ keySize, (∀ v ∈ col, ∃ n, v = .u n) →
+      ∃ p', processColumn (.unsignedInt .none (.auto 0) name) (col.map (fun v => Generated.SrcValue.unsigned (uintOf v : Int))) = some p' ∧
+        (finalizeProp stores ⟨name, .uint⟩ col).toSrc = some (Generated.schemaPropertyFinalize keySize p')) ∧
+    (∀ keySize, (∀ v ∈ col, -(2 : Int) ^ 63 ≤ sintOf v ∧ sintOf v < (2 : Int) ^ 63) →
+      ∃ p', processColumn (.signedInt .none (.auto 0) name) (col.map (fun v => Generated.SrcValue.signed (sintOf v))) = some p' ∧
+        (finalizeProp stores ⟨name, .sint⟩ col).toSrc = some (Generated.schemaPropertyFinalize keySize p')) ∧
+    (∀ keySize,
+      ∃ p', processColumn (.contentAddress .none (.auto 0) (.auto 0) name)
+          (col.map (fun v => Generated.SrcValue.content ((packOf v : Int), (cidOf v : Int)))) = some p' ∧
+        (finalizeProp stores ⟨name, .content⟩ col).toSrc = some (Generated.schemaPropertyFinalize keySize p')) ∧
+    (∀ fixed st, fixed < 256 → ¬ (fixed = 0 ∧ (stores.getD st ⟨false, []⟩).indexed) →
+      ∃ p', processColumn (.array (.auto 0) fixed st name)
+          (col.map (fun v => Generated.SrcValue.array (((arrayOf v).length : Nat) : Int))) = some p' ∧
+        (finalizeProp stores ⟨name, .array fixed st⟩ col).toSrc =
+          some (Generated.schemaPropertyFinalize (fun s => (stores.getD s ⟨false, []⟩).keySize) p')) :=
+  ⟨fun ks h => gen_finalize_uint stores ks name col h,
+   fun ks h => gen_finalize_sint stores ks name col h,
+   fun ks => gen_finalize_content stores ks name col,
+   fun fixed st hf hi => gen_finalize_array stores name fixed st col hf hi⟩
+
+/-- non-vacuity: a two-entry unsigned column is finalised to a one-byte field without a default, and the
+    translated dispatcher agrees -/
+example : (finalizeProp [] ⟨[110], .uint⟩ [.u 3, .u 200]).toSrc =
+    (processColumn (.unsignedInt .none (.auto 0) [110]) [.unsigned 3, .unsigned 200]).map (Generated.schemaPropertyFinalize (fun _ => 0)) := by
+  decide
+
 end Jubako
